@@ -23,7 +23,7 @@ pub const EXIT_SLACK_MS: u64 = 100;
 pub const ADMIN_MSG: &str = "terminating connection due to administrator command";
 
 pub const CLIENT_PROGS: &[&str] = &[
-    "idle", "txn-slow", "txn-never", "autos", "ext-slow", "copy-slow", "drop-early", "drop-in-txn-early", "term-early", "badpw", "late", "late-slow", "session", "drop-after", "idle-then-q", "cancel-early",
+    "idle", "txn-slow", "txn-never", "autos", "ext-slow", "copy-slow", "drop-early", "drop-in-txn-early", "term-early", "badpw", "late", "late-slow", "session", "drop-after", "idle-then-q", "cancel-early", "slow-login",
 ];
 pub const ADMIN_PROGS: &[&str] = &["none", "admin-early", "admin-late", "admin-split"];
 pub const SIGNALS: &[&str] = &["INT", "SHUTDOWN", "TERM", "INT+INT", "HUP+INT", "INT+TERM", "HUP", "none", "INT-at-0"];
@@ -89,6 +89,17 @@ fn client(c: usize, prog: &str) -> Script {
         // a CancelRequest connection (nobody's key) before the signal: it comes and goes through the same counter
         "cancel-early" => Script::new(&name).step(Step::Cancel(crate::world::CancelKey::Raw(4242, 2424))),
         "badpw" => Script::new(&name).connect("alice", "db", Some("wrong")).wait(Cond::Closed),
+        // the TCP connection is accepted before the signal, startup and password are sent after it
+        "slow-login" => Script::new(&name)
+            .step(Step::Open)
+            .wait(Cond::TimeMs(T_SIG + 60))
+            .send(wire::startup(&[("user", "alice"), ("database", "db")]), "startup")
+            .wait(Cond::Msgs(1))
+            .step(Step::SendDyn(
+                "password".into(),
+                std::sync::Arc::new(|salt: Option<[u8; 4]>, _| wire::password_message(&wire::md5_password_body("alice", "alicepw", &salt.unwrap_or([1, 2, 3, 4])))),
+            ))
+            .wait(Cond::Closed),
         "late" => Script::new(&name).wait(Cond::TimeMs(T_SIG + 60)).connect("alice", "db", Some("alicepw")).q(&format!("SELECT 1 /*{}*/", t(0, 0))).terminate(),
         "late-slow" => Script::new(&name).wait(Cond::TimeMs(T_SIG + 500)).connect("alice", "db", Some("alicepw")).q(&format!("SELECT 1 /*{}*/", t(0, 0))).terminate(),
         "session" => Script::new(&name)
@@ -230,7 +241,7 @@ pub fn oracle(sc: &Scenario, out: &Outcome) -> Vec<Violation> {
     let mut cls: Vec<Cl> = Vec::new();
     for (c, p) in progs.iter().enumerate() {
         let name = format!("c{}", c);
-        let open = log.iter().find(|e| matches!(&e.rec, Rec::Event { actor, label, .. } if *actor == name && label.starts_with("connect("))).map(|e| At { seq: e.seq, t: e.t_ms });
+        let open = log.iter().find(|e| matches!(&e.rec, Rec::Event { actor, label, .. } if *actor == name && (label.starts_with("connect(") || label == "open"))).map(|e| At { seq: e.seq, t: e.t_ms });
         let login = log.iter().find(|e| matches!(&e.rec, Rec::CRecv { c: cc, msg } if *cc == c && msg.code == b'Z')).map(|e| At { seq: e.seq, t: e.t_ms });
         cls.push(Cl { c, prog: p.clone(), kind: kind_of(p), open, login, left: left_at(log, c) });
     }
@@ -403,9 +414,14 @@ pub fn oracle(sc: &Scenario, out: &Outcome) -> Vec<Violation> {
         }
         // (5) an idle transaction-mode client is disconnected once the signal has been seen
         if let (Some(i), "txn") = (int0, k.kind) {
-            if k.login.unwrap().seq < i.seq {
+            // also a client whose connection was accepted before the signal and that finished logging in
+            // after it: from its ReadyForQuery on it is idle between transactions like everybody else
+            let accepted_before = k.open.map(|o| o.seq < i.seq).unwrap_or(false);
+            if k.login.unwrap().seq < i.seq || accepted_before {
                 // first moment >= SIGINT at which the client is idle between transactions and has nothing outstanding
-                if let Some(idle) = first_idle_after(log, k.c, i.seq, exit_seq) {
+                let login = k.login.unwrap();
+                let idle_at = if login.seq > i.seq { Some(login) } else { first_idle_after(log, k.c, i.seq, exit_seq) };
+                if let Some(idle) = idle_at {
                     let own_exit = k.left.map(|l| l.seq <= idle.seq).unwrap_or(false);
                     if !own_exit {
                         let next = got_all.iter().find(|(s, _)| *s > idle.seq);
@@ -598,7 +614,7 @@ pub fn build(tier: &str) -> SimCheck {
         oracle: Box::new(oracle),
         bound: if thorough { 3 } else { 2 },
         limits: Limits { max_wall_s: if thorough { 3000.0 } else { 55.0 }, ..Default::default() },
-        rule: "the accept/signal/drain loop of src/main.rs (extracted verbatim at build time) runs in the sim with the real client tasks; population = client programs (idle, slow / never-ending / extended / COPY transactions across the signal, autocommit, leaves before the signal by Terminate / hard drop / hard drop in a transaction / failed login, a cancel-request connection before the signal, arrives after the signal early and late, session-mode, drops after the signal, statement racing the signal) + admin client (connected before, arriving after, query bytes straddling the signal) x signal pattern (SIGINT, admin SHUTDOWN, SIGTERM, SIGINT twice, SIGHUP then SIGINT, SIGINT then SIGTERM, SIGHUP only, none, SIGINT at time 0); all schedules with <= bound deviations; shutdown_timeout 1000 ms of virtual time".into(),
+        rule: "the accept/signal/drain loop of src/main.rs (extracted verbatim at build time) runs in the sim with the real client tasks; population = client programs (idle, slow / never-ending / extended / COPY transactions across the signal, autocommit, leaves before the signal by Terminate / hard drop / hard drop in a transaction / failed login, a cancel-request connection before the signal, arrives after the signal early and late, TCP connection accepted before the signal but startup and password sent after it, session-mode, drops after the signal, statement racing the signal) + admin client (connected before, arriving after, query bytes straddling the signal) x signal pattern (SIGINT, admin SHUTDOWN, SIGTERM, SIGINT twice, SIGHUP then SIGINT, SIGINT then SIGTERM, SIGHUP only, none, SIGINT at time 0); all schedules with <= bound deviations; shutdown_timeout 1000 ms of virtual time".into(),
         assumptions: vec![
             "process exit = the extracted main loop returning; unix signals are delivered through channels with tokio's Signal::recv shape (coalescing of signals that arrive before a recv is not modelled: two SIGINTs are two events); the admin SHUTDOWN's kill(self, SIGINT) goes through the verif::signal hook".into(),
             "a client that had not finished logging in when SIGINT arrived may be cut by the exit (not judged)".into(),
@@ -696,7 +712,7 @@ pub fn conformance_scenarios(tier: &str) -> Vec<Scenario> {
     let mut v = Vec::new();
     let sigs: Vec<&str> = SIGNALS.iter().copied().filter(|s| *s != "INT-at-0").collect();
     for a in CLIENT_PROGS {
-        if *a == "idle-then-q" || *a == "cancel-early" {
+        if *a == "idle-then-q" || *a == "cancel-early" || *a == "slow-login" {
             continue;
         }
         for sig in &sigs {
@@ -712,7 +728,7 @@ pub fn conformance_scenarios(tier: &str) -> Vec<Scenario> {
     if tier == "thorough" {
         for (i, a) in CLIENT_PROGS.iter().enumerate() {
             for b in CLIENT_PROGS.iter().skip(i) {
-                if ["idle-then-q", "cancel-early"].contains(a) || ["idle-then-q", "cancel-early"].contains(b) {
+                if ["idle-then-q", "cancel-early", "slow-login"].contains(a) || ["idle-then-q", "cancel-early", "slow-login"].contains(b) {
                     continue;
                 }
                 for sig in ["INT", "SHUTDOWN"] {
